@@ -25,7 +25,7 @@ LEVEL = "model_checking"
 ENCODED = ["twisted.internet.defer:Deferred.cancel", "twisted.internet.defer:Deferred._startRunCallbacks",
            "twisted.internet.defer:Deferred.callback", "twisted.internet.defer:Deferred.errback",
            "twisted.internet.defer:Deferred._runCallbacks"]
-BOUNDS = {"quick": {"n": 5, "n0": 5, "k": 3, "nd": 4}, "thorough": {"n": 6, "n0": 7, "k": 5, "nd": 6}}
+BOUNDS = {"quick": {"n": 5, "n0": 5, "k": 3, "kd": 3, "nd": 4}, "thorough": {"n": 6, "n0": 7, "k": 5, "kd": 4, "nd": 5}}
 B = {}
 BOUNDS_TEXT = ("every history of <= n ops (<= n0 ops for the outer Deferred without canceller, thorough tier) over {callback, errback, cancel, add callback returning the unfired-or-"
                "fired inner Deferred (+ probe), fire inner}, outer canceller kind in {none, no-op, fires callback, "
@@ -34,7 +34,7 @@ BOUNDS_TEXT = ("every history of <= n ops (<= n0 ops for the outer Deferred with
                "waiting / d waits for inner waits for inner2) followed by every k ops of all 7, inner and "
                "inner2 canceller kinds free, d's canceller the no-op one; model and real state are compared "
                "after every op, so shorter histories are covered as prefixes; history_debug: histories of <= nd "
-               "ops with defer.setDebugging(True); chain3 runs with debugging off and on")
+               "ops (4 quick, 5 thorough) with defer.setDebugging(True); chain3 runs with debugging off (k ops) and on (kd ops: 3 quick, 4 thorough)")
 OUTSIDE = ["histories longer than n (the property's own bound is 8)",
            "chains deeper than three levels; more than one Deferred per level; three-level histories that do not "
            "start with one of the three prefixes",
@@ -404,7 +404,7 @@ def chain3(debug: bool, sc: int, ik: int, ik2: int, v: int, ops: T8) -> bool:
     post: _
     """
     # d's own canceller is the counting no-op one here (all its kinds are covered by `history`)
-    return _hist(B['k'], (1, ik, ik2), v, ops, 7, PRE3[_c(sc, 0, len(PRE3))], debug)
+    return _hist(B['kd'] if debug else B['k'], (1, ik, ik2), v, ops, 7, PRE3[_c(sc, 0, len(PRE3))], debug)
 
 
 def _bucket(k, c, nops=5):
@@ -425,10 +425,13 @@ HARNESSES = [
     H(history, shards=lambda tier: _split([("ck == %d" % ck,) for ck in range(5)], 1 if tier == "quick" else 2),
       timeout={"quick": 150, "thorough": 1200}),
     H(history_nocanc, shards=lambda tier: _split([()], 3), tiers=("thorough",), timeout={"thorough": 1200}),
-    H(history_debug, shards=lambda tier: _split([()], 1 if tier == "quick" else 3),
+    H(history_debug, shards=lambda tier: _split([()], 1 if tier == "quick" else 2),
       timeout={"quick": 150, "thorough": 1200}),
-    H(chain3, shards=lambda tier: _split([("sc == %d" % k, "debug == %s" % dbg) for k in range(len(PRE3))
-                                          for dbg in (False, True)], 0 if tier == "quick" else 2, 7),
+    # thorough: the debugging-on half is one op shallower (kd) and split one level less: the first full
+    # thorough run with nd=6 / k=5 under debugging did not finish in 45 minutes
+    H(chain3, shards=lambda tier: _split([("sc == %d" % k, "debug == False") for k in range(len(PRE3))],
+                                         0 if tier == "quick" else 2, 7) +
+      _split([("sc == %d" % k, "debug == True") for k in range(len(PRE3))], 0 if tier == "quick" else 1, 7),
       timeout={"quick": 150, "thorough": 1200}),
 ]
 
